@@ -21,7 +21,7 @@ def routine_sets_from_programs(run: core.Run, pool: core.Pool, n: int, cfgs: lis
     for p, r in zip(progs, res):
         if "error" in r:
             continue
-        out.append({"rs": {"infos": r["infos"], "coros": r["coros"], "ops": [[{"off": o["off"], "name": o["name"], "params": o["params"]} for o in rt] for rt in r["ops"]]},
+        out.append({"rs": reader_shape({"infos": r["infos"], "coros": r["coros"], "ops": [[{"off": o["off"], "name": o["name"], "params": o["params"]} for o in rt] for rt in r["ops"]]}, run.rng),
                     "origin": {"kind": "compiled", "text": p["text"], "ast": p["ast"]}})
     return out
 
@@ -31,19 +31,21 @@ def wellformed(rs: dict) -> bool:
     return all(i is not None for i in rs["infos"])
 
 
-def decompile_all(pool: core.Pool, sets: list[dict], ssbs: bool = False, chunk: int = 10, timeout: float = 120) -> list[dict]:
+def pipeline_all(pool: core.Pool, sets: list[dict], ssbs: bool = False, chunk: int = 8, timeout: float = 60, single_timeout: float = 20) -> list[dict]:
+    """real decompiler + recompilation + parse for every routine set; a case that hangs or dies gives
+    {"dec": {"error": "NoAnswer", ...}}"""
     args = [{"rs": s["rs"], "ssbs": ssbs} for s in sets]
     chunks = [args[i:i + chunk] for i in range(0, len(args), chunk)]
-    outs = pool.map("harness.impl_es:decompile_many", chunks, timeout=timeout)
+    outs = pool.map("harness.impl_es:decomp_pipeline_many", chunks, timeout=timeout)
     res: list[dict] = []
     for ch, o in zip(chunks, outs):
         if isinstance(o, list):
             res += o
         else:
-            singles = pool.map("harness.impl_es:decompile", ch, timeout=timeout)
+            singles = pool.map("harness.impl_es:decomp_pipeline", ch, timeout=single_timeout)
             for s in singles:
                 if isinstance(s, dict) and ("__timeout__" in s or "__died__" in s or "__exc__" in s):
-                    res.append({"error": "NoAnswer", "msg": json.dumps(s)[:200], "site": "timeout" if "__timeout__" in s else "died", "no_answer": True})
+                    res.append({"dec": {"error": "NoAnswer", "msg": json.dumps(s)[:200], "site": "timeout" if "__timeout__" in s else "died", "no_answer": True}})
                 else:
                     res.append(s)
     return res
@@ -131,3 +133,96 @@ def shrink_rs(rs: dict, still_fails: Any, budget: int = 80) -> dict:
 JUMPY = {"Jump", "Call", "Case", "CaseMenu", "CaseMenu2", "CaseScenario", "CaseValue", "CaseVariable", "Branch", "BranchBit", "BranchDebug",
          "BranchEdit", "BranchExecuteSub", "BranchPerformance", "BranchScenarioNow", "BranchScenarioNowAfter", "BranchScenarioNowBefore",
          "BranchScenarioAfter", "BranchScenarioBefore", "BranchSum", "BranchValue", "BranchVariable", "BranchVariation"}
+
+
+DMODE = ("DMODE_CLOSE", "DMODE_OPEN", "DMODE_REQUEST", "DMODE_OPEN_AND_REQUEST")
+INT_FLAG_OPS = {"BranchDebug": [0], "BranchEdit": [0], "BranchVariation": [0], "BranchPerformance": [0, 1]}
+
+
+def c04_safe(s: str) -> str:
+    """keep strings inside the guard of C04's round-trip theorem (C04 owns the literal layer and lists its findings)"""
+    s = s.replace("\\", "/").replace("\r", " ").replace("\f", " ").replace("\v", " ")
+    if "\n" in s:
+        lines = s.split("\n")
+        if not any(l == "" or not l.startswith(" ") for l in lines):
+            lines[0] = "x" + lines[0]
+        if lines[-1].strip(" ") == "":
+            lines[-1] = lines[-1] + "."
+        s = "\n".join(lines)
+    return s
+
+
+def _safe_param(p: Any) -> Any:
+    if isinstance(p, dict):
+        if "s" in p:
+            return {"s": c04_safe(p["s"])}
+        if "ls" in p:
+            return {"ls": [[k, c04_safe(v)] for k, v in p["ls"]]}
+    return p
+
+
+def reader_shape(rs: dict, rng: random.Random) -> dict:
+    """make a compiled routine set look like what a binary SSB reader delivers: dungeon modes are numbers 0..3,
+    debug/edit/variation/performance flags are integers"""
+    # a binary reader numbers the ops in file order: renumber (the compiler's own numbers are not monotone)
+    mapping: dict = {}
+    k = 0
+    for r in rs["ops"]:
+        for o in r:
+            mapping[o["off"]] = k
+            k += rng.choice([1, 1, 1, 2, 3])
+    for r in rs["ops"]:
+        for o in r:
+            o["off"] = mapping[o["off"]]
+            if o["name"] in JUMPY and o["params"] and isinstance(o["params"][-1], int):
+                o["params"][-1] = mapping.get(o["params"][-1], o["params"][-1])
+    for r in rs["ops"]:
+        for o in r:
+            o["params"] = [_safe_param(p) for p in o["params"]]
+            if o["name"] == "flag_SetDungeonMode" and len(o["params"]) == 2 and not (isinstance(o["params"][1], int) and 0 <= o["params"][1] <= 3):
+                o["params"][1] = rng.randint(0, 3)
+            for i in INT_FLAG_OPS.get(o["name"], []):
+                if i < len(o["params"]) and not isinstance(o["params"][i], int):
+                    o["params"][i] = rng.randint(0, 1)
+        # the cases of a dungeon-mode switch compare against dungeon-mode numbers
+        in_dm = False
+        for o in r:
+            if o["name"] == "SwitchDungeonMode":
+                in_dm = True
+            elif in_dm and o["name"] == "Case":
+                if not (isinstance(o["params"][0], int) and 0 <= o["params"][0] <= 3):
+                    o["params"][0] = rng.randint(0, 3)
+            elif in_dm and o["name"] not in ("CaseValue", "CaseVariable", "CaseMenu", "CaseMenu2", "CaseScenario"):
+                in_dm = False
+    return rs
+
+
+def canon_dmode_ops(ops: list) -> list:
+    """a dungeon-mode number may come back as the configured constant that stands for it: compare by number"""
+    for r in ops:
+        for o in r:
+            if o["name"] == "flag_SetDungeonMode" and len(o["params"]) == 2:
+                p = o["params"][1]
+                if isinstance(p, dict) and p.get("c") in DMODE:
+                    o["params"][1] = DMODE.index(p["c"])
+            if o["name"] == "Case" and o["params"] and isinstance(o["params"][0], dict) and o["params"][0].get("c") in DMODE:
+                o["params"][0] = DMODE.index(o["params"][0]["c"])
+    return ops
+
+
+def canon_dmode_core(node: Any) -> Any:
+    if isinstance(node, list):
+        if len(node) == 3 and node[0] == "op" and node[1] == "flag_SetDungeonMode" and len(node[2]) == 2:
+            p = node[2][1]
+            if isinstance(p, dict) and p.get("c") in DMODE:
+                node[2][1] = DMODE.index(p["c"])
+            return node
+        if len(node) == 2 and node[0] == "Case" and isinstance(node[1], list) and node[1] and isinstance(node[1][0], dict) and node[1][0].get("c") in DMODE:
+            node[1][0] = DMODE.index(node[1][0]["c"])
+            return node
+        for x in node:
+            canon_dmode_core(x)
+    elif isinstance(node, dict):
+        for v in node.values():
+            canon_dmode_core(v)
+    return node
